@@ -2,7 +2,7 @@
 # run_all.sh <tier> [ids...] — developer helper: run checks into /verif/scratch/<tier> (never touches committed evidence)
 TIER="$1"; shift
 IDS="${@:-C01 C02 C03 C04 C05 C06 C07 C08 C09 C10 C11 C12 C13 C14 C15 C16 C17 C18 C19 C20}"
-cd /verif
+cd /verif; ulimit -n 65536 2>/dev/null
 export CARGO_NET_OFFLINE=true CARGO_TARGET_DIR=/verif/target VERIF_OUT=/verif/scratch/$TIER
 mkdir -p $VERIF_OUT/evidence $VERIF_OUT/replays
 cp -f KNOWN_FINDINGS.json $VERIF_OUT/
